@@ -87,6 +87,11 @@ func init() {
 			}
 			if c.Idx >= tierN(c.Tier, 1600, 40000) {
 				// schedules: concurrent clients; snapshot invariant, offline interval checker and linearizability
+				if c.Idx%5 == 3 {
+					// ... and saves whose retention removes finished jobs while the clients schedule (the lists that the
+					// limit is counted over are rewritten by every such save)
+					return stressCase(c, drv.StressOpts{Schedulers: 3, Cancelers: 1, Readers: 1, Saver: true, Retention: 1 + c.Idx%2, OpsPerClient: 40, FailProb: 0.1, MaxPauseUs: 120}, "C01")
+				}
 				return linCase(c, "C01")
 			}
 			o := admissionOpts(c.Idx)
